@@ -45,5 +45,13 @@ func init() {
 	register("C17", "", clean, rulePrepareResponse)
 	scAll := scope{"module", []string{"pebbles.(*Gateway).Handler", "pebbles.NewGateway", "planner.(*CachedPlanner).Plan", "merger.(SanitizeNodeMergerFunc).Merge"}}
 	register("C13", "", ruleMapRanges(scAll, 40), ruleReducers, ruleSelects, ruleCallers(func(c string) bool { return c == "time.Now" }), ruleGoSites)
+	register("C14", "", rulePlanImmutable, ruleCacheKey, ruleLocks(plannerPkg+".CachedPlanner"))
+	register("C13", "", ruleLocks(plannerPkg+".CachedPlanner", modPath+"/executor.CachedPointDataExtractor"))
+	register("C18", "", ruleLocks(modPath+".subscriptionEntry"), ruleChannels, ruleConnWriters, ruleTeardown, ruleGoSites)
+	register("C17", "", ruleEventPath, ruleChannels, ruleGoSites)
+	register("C06", "", ruleOperationType, rulePlanImmutable, ruleCacheKey, ruleCallers(nil))
+	register("C02", "", ruleOperationType, ruleCacheKey)
+	register("C01", "", ruleInsertionPointFresh, ruleCacheKey)
+	register("C17", "", rulePlanImmutable)
 	register("X6", "debug: R6 over whole module", ruleErr(errScope{label: "all", pkgs: []string{"pebbles", "common", "executor", "format", "gqlerrors", "introspection", "merger", "planner", "queryer", "requests"}}))
 }
